@@ -1,4 +1,4 @@
-CONSTANTS NSheets = 1 MaxR = 1 MaxC = 1 MaxCells = 0 FreeLen = 0 Escape = TRUE Record = FALSE
+CONSTANTS NSheets = 1 MaxR = 1 MaxC = 1 MaxCells = 0 FreeLen = 0 Escape = TRUE Overwrite = TRUE Record = FALSE
 CONSTANTS Values = {} FreeAlphabet = {}
 SPECIFICATION TraceSpec
 POSTCONDITION Consumed
